@@ -122,6 +122,7 @@ def raire_cases():
             for r1 in rankings:
                 for r2 in rankings[::5]:
                     yield {"ncon": ncon, "r1": list(r1), "r2": list(r2), "naming": naming}
+                    yield {"ncon": ncon, "r1": list(r1), "r2": list(r2), "naming": naming, "repeat": True}
 
 
 def judge_raire(case):
@@ -138,6 +139,9 @@ def judge_raire(case):
         rows.append([k2, b[2], nm["c2"][0]])
         want[b[0]][k2] = {nm["c2"][1]: 1, nm["c2"][0]: 2}
         want[b[2]] = {k2: {nm["c2"][0]: 1}}
+    if case.get("repeat"):  # the first ballot appears once more in the first contest: one card, the later row stands
+        rows.append([k1, b[0]] + r2)
+        want[b[0]][k1] = {c: k + 1 for k, c in enumerate(r2)}
     try:
         got, n = CVR.from_raire(rows)
     except Exception as e:  # noqa
